@@ -7,11 +7,14 @@ import (
 	"fmt"
 	"os"
 	"os/exec"
+	"regexp"
 	"strings"
 	"testing"
 	"unicode/utf8"
 
 	schema "github.com/jsightapi/jsight-schema-core"
+	jdoc "github.com/jsightapi/jsight-schema-core/formats/json"
+	jjson "github.com/jsightapi/jsight-schema-core/json"
 	"github.com/jsightapi/jsight-schema-core/notations/regex"
 	"github.com/jsightapi/jsight-schema-core/rules/enum"
 	"pgregory.net/rapid"
@@ -131,7 +134,50 @@ func firstDiff(a, b string) (field, detail string) {
 	return field, fmt.Sprintf("...%s\n   vs\n...%s", a[lo:hi(a)], b[lo:hi(b)])
 }
 
+// guessWalk: the lexemes of a document are walked twice - plainly, and with every literal handed to the type
+// guessers (GuessSchemaType, json.Guess, NewNumber) on the way, as a reader of API files does. Looking at a
+// literal must not change what the walk finds afterwards.
+func guessWalk(text string) *ev.Verdict {
+	walk := func(guess bool) (string, *sut.Escape) {
+		var b strings.Builder
+		esc := sut.Trap("doc-walk", func() {
+			d := jdoc.New("doc", text)
+			for i := 0; i < 4*len(text)+16; i++ {
+				lex, err := d.NextLexeme()
+				if err != nil {
+					fmt.Fprintf(&b, "END %s", errText(err))
+					return
+				}
+				fmt.Fprintf(&b, "%s@%d-%d;", lex.Type(), lex.Begin(), lex.End())
+				if guess && lex.Type().String() == "literal-end" {
+					v := lex.Value().Data()
+					t, err := schema.GuessSchemaType(v)
+					fmt.Fprintf(&b, "\x01%s,%v\x02", t, err != nil)
+					_ = sut.Trap("json.Guess", func() { _ = jjson.Guess(lex.Value()).IsNull() })
+					_ = sut.Trap("NewNumber", func() { _, _ = jjson.NewNumber(lex.Value()) })
+				}
+			}
+		})
+		return b.String(), esc
+	}
+	plain, e1 := walk(false)
+	guessed, e2 := walk(true)
+	if e1 != nil || e2 != nil {
+		return nil // (C02 / C12)
+	}
+	strip := regexp.MustCompile("\x01[^\x02]*\x02")
+	if g := strip.ReplaceAllString(guessed, ""); g != plain {
+		return ev.V("doc:guessing-changes-the-walk", "document %q: the lexeme walk gives\n  %.300s\nbut with every literal handed to the type guessers on the way\n  %.300s", text, plain, g)
+	}
+	return nil
+}
+
 func oracle(c Case) *ev.Verdict {
+	if c.Kind == "doc" {
+		if v := guessWalk(c.Text); v != nil {
+			return v
+		}
+	}
 	base := render(c, nil)
 	if i := strings.Index(base, `"again":"`); c.Kind == "project" && i >= 0 {
 		// (sut.ObserveBuilt asks every question a second time on the same object)
